@@ -38,6 +38,7 @@ type Profile struct {
 	Stores   int  // max extra unrelated stores
 	EndOnly  int  // percentage of cases that compare only at the end
 	Monotone int  // percentage of cases drawn without lowering overwrites
+	NoPrelude int // 1: never prepend the bulk-load prelude
 	total    int
 }
 
@@ -97,8 +98,12 @@ func genVal(t *rapid.T, p *Profile) []byte {
 		return rapid.SliceOfN(rapid.Byte(), 0, 24).Draw(t, "val")
 	case r < 94 && p.Hostile:
 		return hostileVals[uni(t, len(hostileVals), "hostile")]
-	case r < 96 && p.BigVals:
+	case r < 95 && p.BigVals:
 		return bytes.Repeat([]byte{rapid.Byte().Draw(t, "fillv")}, 4096)
+	case r < 97 && p.BigVals:
+		// lengths spread densely around 4 KiB, so that what one Flush appends
+		// straddles I/O-block-sized boundaries at every alignment
+		return bytes.Repeat([]byte{rapid.Byte().Draw(t, "fillv")}, 3700+uni(t, 512, "near4k"))
 	default:
 		return rapid.SliceOfN(rapid.Byte(), 0, 60).Draw(t, "val2")
 	}
@@ -323,9 +328,35 @@ func GenCase(p *Profile) *rapid.Generator[Case] {
 			gs.mono = uni(t, 100, "mono") < p.Monotone
 			c.Cfg.Monotone = gs.mono
 		}
+		// Prelude (a third of the cases of profiles that mutate): bulk-load one
+		// collection with 5-12 distinct keys at spread priorities, then (file-backed)
+		// flush and either evict everything or re-open, so that the generated ops
+		// that follow act on a multi-level tree that is partly or not at all loaded.
+		if p.hasKind(OpSet) && p.hasKind(OpFlush) && p.NoPrelude == 0 && uni(t, 100, "prelude") < 33 {
+			nc := p.NColls
+			if nc <= 0 {
+				nc = 1
+			}
+			ci := uni(t, nc, "preludecoll")
+			np := 5 + uni(t, 8, "preluden")
+			perm := rapid.Permutation(KeyPool[:14]).Draw(t, "preludekeys")
+			for i := 0; i < np; i++ {
+				pr := int32(uni(t, 1000, "preludeprio"))*1024 + int32(i)
+				gs.prios[collName(ci)+"\x00"+string(perm[i])] = pr
+				c.Ops = append(c.Ops, Op{K: OpSet, C: ci, Key: perm[i], Val: []byte{byte('A' + i)}, Prio: pr})
+			}
+			if !c.Cfg.Mem {
+				c.Ops = append(c.Ops, Op{K: OpFlush})
+				if p.hasKind(OpReopen) && uni(t, 2, "preludereopen") == 1 {
+					c.Ops = append(c.Ops, Op{K: OpReopen})
+				} else if p.hasKind(OpEvict) {
+					c.Ops = append(c.Ops, Op{K: OpEvict, N: 12, Flag: 1})
+				}
+			}
+		}
 		n := rapid.IntRange(p.MinOps, p.MaxOps).Draw(t, "nops")
 		for i := 0; i < n; i++ {
-			gs.step = i
+			gs.step = i + 16
 			k := p.drawKind(t)
 			if gs.mono && k == OpSetR {
 				k = OpSet
